@@ -86,7 +86,7 @@ func init() {
 		assumptions: []string{},
 	})
 	register("C08", &propDef{
-		patterns: []string{"./embedded/ahtree", "./embedded/htree", "./embedded/store"},
+		patterns: []string{"./embedded/ahtree", "./embedded/htree", "./embedded/store", "./embedded/appendable/..."},
 		run:      c08,
 		explanation: "Decides structural clauses of the Merkle constructions: domain-separation constants and their use at every tree hash site (prefix byte, buffer size, both children copied); verifiers guard evaluation with i<=j and i!=0, compare the evaluated root(s) with the claimed one(s), every verifier parameter influences the verdict beyond a zero check, the entry-tree verifier ties the number of terms to (Leaf, Width); ResetSize syncs and invalidates both caches before shrinking and never grows; Append rewinds both logs to their committed sizes before writing and advances sizes only when the batch sync did not fail. It does NOT decide equality of roots/proofs with the reference construction (digest-log arithmetic).",
 		assumptions: []string{"sha256"},
